@@ -27,6 +27,8 @@ type G struct {
 	entry   string
 	parkSeq int
 	daemon  bool // harness helper: not counted for leaks
+	vc      VC
+	held    []*Mutex
 	serverConn bool // goroutine standing for the HTTP server serving an upgraded connection
 }
 
@@ -94,6 +96,10 @@ func (g *G) spawn(cl *Closure, args []Value, fr *Frame, pos token.Pos) *G {
 		name = cl.Name
 	}
 	ng := r.newG(name, lib)
+	if r.raceOn {
+		g.vcTick()
+		ng.vc = g.vc.copy()
+	}
 	r.startG(ng, func() { ng.callFn(cl, args, nil, pos) })
 	// creating a goroutine is a scheduling point
 	g.schedPoint(&Op{desc: "go " + name, enabled: func() bool { return true }})
@@ -335,9 +341,11 @@ func (r *Run) quiescent(from *G) {
 	}
 	if r.main != nil && !r.main.done {
 		if r.outcome == OutOK {
-			r.outcome = OutViolation
-			r.reason = "harness main goroutine blocked forever"
 			r.mainBlocked(from)
+			if r.outcome == OutOK {
+				r.outcome = OutViolation
+			}
+			r.reason = "harness main goroutine blocked forever"
 		}
 	}
 	r.finish()
@@ -479,6 +487,7 @@ func (g *G) chanSend(ch *Chan, v Value) {
 	r := g.run
 	op := &Op{desc: "send " + ch.String(), obj: ch, ch: ch, isSend: true, sendV: v}
 	op.enabled = func() bool { return r.canSend(ch, g) }
+	g.hbRelease(ch)
 	g.schedPoint(op)
 	if op.completed {
 		return
@@ -491,6 +500,7 @@ func (g *G) chanRecv(ch *Chan) (Value, bool) {
 	op := &Op{desc: "recv " + ch.String(), obj: ch, ch: ch}
 	op.enabled = func() bool { return r.canRecv(ch, g) }
 	g.schedPoint(op)
+	defer g.hbAcquire(ch)
 	if op.completed {
 		return op.val, op.ok
 	}
@@ -505,6 +515,7 @@ func (g *G) chanClose(ch *Chan) {
 	if ch.closed {
 		g.goPanicPlain("close of closed channel")
 	}
+	g.hbRelease(ch)
 	ch.closed = true
 }
 
@@ -539,8 +550,16 @@ func (g *G) selectCases(cases []*selCase, hasDefault bool) (int, Value, bool) {
 	}
 	op := &Op{desc: "select{" + strings.Join(descs, ",") + "}", sel: cases, hasDef: hasDefault, selIdx: -1}
 	op.enabled = func() bool { return hasDefault || len(ready()) > 0 }
+	for _, c := range cases {
+		if c.isSend && c.ch != nil {
+			g.hbRelease(c.ch)
+		}
+	}
 	g.schedPoint(op)
 	if op.completed {
+		if op.selIdx >= 0 && !cases[op.selIdx].isSend {
+			g.hbAcquire(cases[op.selIdx].ch)
+		}
 		return op.selIdx, op.val, op.ok
 	}
 	rd := ready()
@@ -558,6 +577,7 @@ func (g *G) selectCases(cases []*selCase, hasDefault bool) (int, Value, bool) {
 		return i, nil, false
 	}
 	v, ok := g.doRecv(c.ch)
+	g.hbAcquire(c.ch)
 	return i, v, ok
 }
 
@@ -610,6 +630,8 @@ func (g *G) mutexLock(p *Value) {
 	g.schedPoint(&Op{desc: fmt.Sprintf("lock m%d", m.id), obj: m, enabled: func() bool { return !m.locked && m.readers == 0 }})
 	m.locked = true
 	m.owner = g
+	g.held = append(g.held, m)
+	g.hbAcquire(m)
 }
 
 func (g *G) mutexUnlock(p *Value) {
@@ -617,6 +639,15 @@ func (g *G) mutexUnlock(p *Value) {
 	g.schedPoint(&Op{desc: fmt.Sprintf("unlock m%d", m.id), obj: m, enabled: func() bool { return true }})
 	if !m.locked {
 		g.fatal("sync: unlock of unlocked mutex")
+	}
+	g.hbRelease(m)
+	if o := m.owner; o != nil {
+		for i, x := range o.held {
+			if x == m {
+				o.held = append(o.held[:i:i], o.held[i+1:]...)
+				break
+			}
+		}
 	}
 	m.locked = false
 	m.owner = nil
@@ -662,10 +693,11 @@ func (g *G) onceDo(p *Value, f *Closure) {
 	}
 	g.schedPoint(&Op{desc: "once.Do", obj: o, enabled: func() bool { return !o.running }})
 	if o.done {
+		g.hbAcquire(o)
 		return
 	}
 	o.running = true
-	defer func() { o.running = false; o.done = true }()
+	defer func() { g.hbRelease(o); o.running = false; o.done = true }()
 	g.callFn(f, nil, g.top, token.NoPos)
 }
 
